@@ -11,12 +11,17 @@ Line-protocol driver for property C03 (Model/Verify.lean).
 `pre` is the id of the tip the op was planned for: on any other state both sides answer `skip`
 (this keeps shrunken cases meaningful).
 
+When the generator-list token is `app`, the token before it is the APPLICATION's list (`addr:weight,...` with
+EVERY entry, weight 0 included) and the model derives both lists itself through `Convert.convert`
+(Model/Convert.lean: `GetBFTValidatorAndGenerators`); the same in the `change` fact `<precommit>/<cert>/<list>/app`.
+
 `via` is `P` (Executer.process) or `V` (Block.Validate + processValidated, the synchroniser path).
 `label`, `expect` and the hex block are for the implementation runner only.
 -/
 import Driver.Common
 import Driver.BFT
 import LiskVerif.Model.Verify
+import LiskVerif.Model.Convert
 
 namespace Driver.Verify
 open LiskVerif LiskVerif.BFT LiskVerif.Verify
@@ -44,9 +49,19 @@ def parseTxs (s : String) : Option (List (TxV × TxV)) :=
       pure (a, b)
     | _ => none
 
+/-- the application's list `addr:weight,...` (every entry; generator and BLS keys play no role in this model) -/
+def parseApp (s : String) : Option (List Convert.AppValidator) :=
+  (Driver.BFT.parseValidators s).map fun l =>
+    l.map fun v => { address := v.address, weight := v.weight, generatorKey := [], blsKey := [] }
+
 def parseChange (s : String) : Option (Option Change) :=
   if s == "-" then some none else
   match s.splitOn "/" with
+  | [pc, cert, app, "app"] => do
+    let pc ← pc.toNat?
+    let cert ← cert.toNat?
+    let app ← parseApp app
+    pure (some (Convert.changeOf pc cert app))
   | [pc, cert, vals, gens] => do
     let pc ← pc.toNat?
     let cert ← cert.toNat?
@@ -131,6 +146,17 @@ def runCand (n : Node) (via : String) (b : Cand) : Node × String :=
 
 def step (n : Node) (w : List String) : Node × String :=
   match w with
+  | ["reset", bs, gts, bt, now, maxLen, acBound, gid, pc, cert, app, "app", _goConfig] =>
+    -- genesis: the application's list goes through the conversion of the model (`ExecuteGenesis`)
+    match bs.toNat?, gts.toNat?, bt.toNat?, now.toNat?, maxLen.toNat?, Driver.boolArg acBound,
+          Hex.decode? gid, pc.toNat?, cert.toNat?, parseApp app with
+    | some bs, some gts, some bt, some now, some maxLen, some acBound, some gid, some pc, some cert, some app =>
+      match Convert.applyApp (initGenesis bs 0) pc cert app with
+      | none => (emptyNode, "err")
+      | some s =>
+        ({ cfg := { genesisTimestamp := gts, blockTime := bt, now := now, maxTxLen := maxLen, acBound := acBound },
+           tipHeight := 0, tipID := gid, tipTimestamp := gts, chain := [(0, gid)], bft := s, finalized := 0 }, "ok")
+    | _, _, _, _, _, _, _, _, _, _ => (n, "bad-op")
   | ["reset", bs, gts, bt, now, maxLen, acBound, gid, pc, cert, vals, gens, _goConfig] =>
     match bs.toNat?, gts.toNat?, bt.toNat?, now.toNat?, maxLen.toNat?, Driver.boolArg acBound,
           Hex.decode? gid, pc.toNat?, cert.toNat?, Driver.BFT.parseValidators vals, Driver.BFT.parseAddrs gens with
